@@ -86,6 +86,38 @@ def jobs_for(prop, both, repo):
     return jobs
 
 
+def new_function_gaps(prop, jobs, repo):
+    """(label, reason) for every function of the current source that is not in contracts/known_functions.json and
+    belongs to a class, or has a method name, that a contract of this property is about."""
+    from .extract import Source
+    try:
+        known = set(json.load(open(os.path.join(VERIF, 'contracts', 'known_functions.json')))['functions'])
+    except Exception:   # noqa
+        return []
+    src = Source(repo)
+    new = [k for k in src.funcs if not k.endswith('[]') and k not in known]
+    if not new:
+        return []
+    classes, methods = set(), set()
+    for (m, ci, meth, vi, both, rp) in jobs:
+        c = importlib.import_module(m).CONTRACTS[ci]
+        if getattr(c, 'cls', None):
+            classes.add(c.cls)
+        methods.add(meth)
+    out = []
+    for k in sorted(new):
+        q = k.split(':', 1)[1]
+        parts = q.split('.')
+        cls = parts[0] if len(parts) > 1 else None
+        name = parts[-1]
+        if name.startswith('__') and name in ('__str__', '__repr__'):
+            continue
+        if (cls in classes and cls != 'Dataset') or (name in methods and not name.startswith('__')) or \
+                (cls is not None and name in methods):
+            out.append(('%s[new-function]' % q, 'function %s was added after the contracts were written and has no contract' % k))
+    return out
+
+
 # which property a clause belongs to (a variant may serve several properties: one symbolic run, many
 # clauses).  Clauses with an explicit Cnn: prefix count for the properties named there; the generic
 # clauses of the interface contract for the properties below; loop invariants, lemmas, call-site
@@ -206,6 +238,10 @@ def main():
     functions = {}
     samples = []
     skipped = []
+    # functions added after the contracts were written have no contract: an inherited or absent contract must not
+    # be mistaken for a proof about them (e.g. a new override `SliceDataset.split` of `Dataset.split`)
+    for lab, why in new_function_gaps(prop, jobs, a.repo or os.environ.get('PYVC_REPO', '/repo')):
+        undecided.append((lab, why))
     for r in results:
         if r['status'] == 'skipped':
             skipped.append(r['label'])
